@@ -84,6 +84,24 @@ Proof.
   rewrite L. now destruct q.
 Qed.
 
+(** writing any hop field over the flagged one *)
+Lemma store_any q x : N.to_nat (p_curr_hf q) = kx ->
+  with_hops (phi (p_src_ia q) gflag q) (set_nthN (mapi gflag (p_hops q)) (p_curr_hf q) x) =
+  with_hops q (set_nth (p_hops q) kx x).
+Proof.
+  intros C. unfold set_nthN. rewrite C.
+  assert (L : set_nth (mapi gflag (p_hops q)) kx x = set_nth (p_hops q) kx x).
+  { apply lext.
+    - now rewrite !len_set_nth, mapi_length.
+    - intros i Hi. rewrite !nth_set_nth, !nth_error_mapi. unfold gflag.
+      destruct (Nat.eqb i kx) eqn:X.
+      + now destruct (nth_error (p_hops q) kx).
+      + now destruct (nth_error (p_hops q) i). }
+  unfold with_hops, phi. cbn [p_dst_ia p_src_ia p_dst_type p_src_type p_dst_raw p_src_raw p_pay_len p_pay_actual
+    p_l4_port p_curr_inf p_curr_hf p_seg0 p_seg1 p_seg2 p_meta_rsv p_infos p_hops].
+  now rewrite L.
+Qed.
+
 End Flag.
 
 (** * One router and a packet with one flag *)
@@ -136,6 +154,32 @@ Proof.
     unfold store_hop; cbn [s_p s_eg ScmpReturnCong.Phi].
   - rewrite (clear_i h Ph). do 2 f_equal. subst s'. exact (store_back kx _ _ (s_p s) h Nh C).
   - rewrite (clear_e h Ph). do 2 f_equal. subst s'. exact (store_back kx _ _ (s_p s) h Nh C).
+Qed.
+
+(** the same whatever the other flag is: the ingress handler comes first and clears only its
+    own flag; the packet handed over still carries the other one *)
+Lemma ingress_answer_any s h :
+  from0 ing = false -> N.to_nat (p_curr_hf (s_p s)) = kx ->
+  (if i_consdir (s_inf s) then a else e) = true ->
+  s_hop s = h -> plain_hop h -> nth_error (p_hops (s_p s)) kx = Some h -> p_src_ia (s_p s) = s' ->
+  handle_ingress_router_alert ing (Phi s) =
+  Stop (SlowPath SpAlertIngress (s_eg s)
+          (ScmpReturn.set_alerts kx (if i_consdir (s_inf s) then false else a)
+                                 (if i_consdir (s_inf s) then e else false) (s_p s))).
+Proof.
+  intros F0 C Fl Eh Ph Nh Es. unfold handle_ingress_router_alert. rewrite F0.
+  change (s_inf (Phi s)) with (s_inf s). change (s_hop (Phi s)) with (g (cur (s_p s)) (s_hop s)).
+  unfold cur. rewrite C.
+  change (g kx (s_hop s)) with (if Nat.eqb kx kx then flagged a e (s_hop s) else s_hop s).
+  rewrite Nat.eqb_refl. rewrite Eh.
+  destruct Ph as (_ & _ & Pr).
+  unfold ScmpReturn.set_alerts. rewrite Nh.
+  remember (gflag kx a e) as G eqn:EG.
+  destruct (i_consdir (s_inf s)); cbn [flagged h_ialert h_ealert]; rewrite Fl; cbn [negb];
+    unfold store_hop; cbn [s_p s_eg ScmpReturnCong.Phi]; do 2 f_equal; subst G s';
+    refine (eq_trans (store_any kx a e (s_p s) _ C) _); do 2 f_equal;
+    unfold ser_hop, clear_ialert, clear_ealert, flagged; cbn [h_ialert h_ealert h_exp h_in h_eg h_mac h_rsv];
+    now rewrite Pr.
 Qed.
 
 Lemma ingress_quiet s :
